@@ -89,7 +89,8 @@ def run(ctx, b, broken):
             except Exception:
                 pass
     import props.C06 as C06z
-    for text, _valid in ZOO:
+    import semgen as _semgen
+    for text, _valid in ZOO + [(t_, True) for t_ in _semgen.SEMZOO]:
         for variant in [text] + [" ".join(C06z.mutate(text.split(" "), ctx.rng)) for _ in range(6)]:
             ctx.evaluations += 1
             ctx.count("suite:zoo")
